@@ -289,6 +289,12 @@ def int_binop(p: Path, op: type, a: Any, b: Any) -> Any:
     if op is ast.BitOr:
         return _bit_or(p, a, b)
     if op is ast.BitXor:
+        # x ^ (2**k - 1) for 0 <= x < 2**k is the complement within k bits: (2**k - 1) - x   (exact)
+        for x, c in ((a, b), (b, a)):
+            if isinstance(c, int) and not isinstance(c, bool) and c > 0 and (c & (c + 1)) == 0 and not isinstance(x, int):
+                tx = int_term(x)
+                if p.entails(z3.And(tx >= 0, tx <= c)):
+                    return mk_int(c - tx)
         return _bitop_bv(p, "xor", a, b)
     if op is ast.Pow:
         if isinstance(b, int) and not isinstance(b, bool) and 0 <= b <= 64:
